@@ -524,6 +524,38 @@ func runC12(c *Ctx) error {
 			c.count(fmt.Sprintf("history %d %d %d", hi, k, ci), s.Enabled && cs.Enabled, "handshakes on a long-lived Upgrader")
 		}
 	}
+	// (2c) one long-lived ClientOption dials a HISTORY of servers with different settings: what each handshake negotiates
+	// depends on that server's configuration and on the client's configured offer only, never on the servers before it
+	for hi, ci := range []int{n - 1, n - 2, n / 2, n/2 + 7, n - 13, 3 * n / 4} {
+		cs := settings[ci]
+		if !cs.Enabled {
+			continue
+		}
+		copt := &gws.ClientOption{PermessageDeflate: cs.pd()}
+		var seq []int
+		for k := 0; k < 8; k++ {
+			seq = append(seq, c.Rng.Intn(n))
+		}
+		seq = append(seq, 0, n-1, 1, n-1, n/2, n-1)
+		for k, si := range seq {
+			s := settings[si]
+			up := gws.NewUpgrader(&recHandler{}, &gws.ServerOption{PermessageDeflate: s.pd()})
+			sc, cc, stap, ctap, err := gwsPairWith(up, copt, &recHandler{})
+			if err != nil {
+				c.oracleFail(fmt.Sprintf("handshake %d of a history of dials with one ClientOption failed for server %s client %s: %v", k, s, cs, err), "c12-handshake-error", map[string]any{"server": s, "client": cs})
+				continue
+			}
+			f := zeroPool(fn.pair(s, cs))
+			got := zeroPool(c12Outcome{SV: sc.VerifPD(), CL: cc.VerifPD()})
+			if got.SV != f.SV || got.CL != f.CL {
+				c.oracleFail(fmt.Sprintf("dial %d of a history of dials with ONE ClientOption (server %s, client %s) negotiated server %s / client %s; the same pair with a fresh ClientOption gives server %s / client %s",
+					k, s, cs, pdStr(got.SV), pdStr(got.CL), pdStr(f.SV), pdStr(f.CL)), "c12-history-dependent", map[string]any{"server": s, "client": cs, "position": k})
+			}
+			stap.Close()
+			ctap.Close()
+			c.count(fmt.Sprintf("dial history %d %d %d", hi, k, si), s.Enabled && cs.Enabled, "handshakes with a long-lived ClientOption")
+		}
+	}
 	phase("real handshakes")
 	// (3) parser robustness
 	nlists := 1500
